@@ -17,6 +17,7 @@
 #include <new>
 #include <sched.h>
 #include <unordered_map>
+#include <unordered_set>
 
 using namespace hz;
 namespace xr = xenium::reclamation;
@@ -32,6 +33,7 @@ struct Registry { // only touched inside xrt::Quiet sections
   std::unordered_map<const void*, int> prot; // node -> number of model guards (over all holder threads) protecting it
   std::unordered_map<const void*, int> prot_acq; // ... of those: guards that acquired the node themselves (not copies of a guard)
   std::string kind, msg;
+  std::unordered_set<const void*> probes_gone; // release probes that have been destroyed (by whichever thread)
   uint64_t created = 0, destroyed = 0;
   void err(const char* k, const std::string& m) {
     if (kind.empty()) {
@@ -42,6 +44,7 @@ struct Registry { // only touched inside xrt::Quiet sections
   void clear() {
     prot.clear();
     prot_acq.clear();
+    probes_gone.clear();
     kind.clear();
     msg.clear();
   }
@@ -76,17 +79,17 @@ template <class R>
 struct Node : R::template enable_concurrent_ptr<Node<R>, 1> {
   int64_t id;
   uint64_t canary;
-  bool* gone = nullptr; // release probe: set when this node is destroyed
+  bool probe = false; // release probe: its destruction is recorded in the registry
   explicit Node(int64_t i) : id(i), canary(0xC0FFEE00u + (uint64_t)i) {
     xrt::Quiet q;
     ++reg().created;
   }
   ~Node() override {
     canary = 0xdead;
-    if (gone)
-      *gone = true;
     xrt::Quiet q;
     ++reg().destroyed;
+    if (probe)
+      reg().probes_gone.insert(this);
     auto it = reg().prot.find(this);
     if (it != reg().prot.end() && it->second > 0) {
       auto ia = reg().prot_acq.find(this);
@@ -479,7 +482,7 @@ struct Env {
     int iters = 0;
     uint64_t seed = 0;
     uint64_t throws = 0, ops = 0, full_states = 0, over_k = 0;
-    int release_probe = -1; // holder: number of retirers to wait for before the release probe (-1: no probe)
+    int release_probe = -1; // holder: spec index of the thread that must have exited before the release probe, 0 = none (-1: no probe)
     uint64_t probe_iters = 0;
     bool probed = false;
   };
@@ -488,20 +491,24 @@ struct Env {
   // around - it must not delay reclamation any more. The thread retires a probe node and keeps passing through reclamation points
   // (a region_guard, a retired dummy); the probe has to be destroyed within a bound that is far above what the slowest scheme needs.
   static bool release_probe(Shared& S, int tid, uint64_t& iters) {
-    bool* gone = new bool(false);
+    N* d = new N(((int64_t)tid << 20) | S.next_id.fetch_add(1, std::memory_order_relaxed));
+    d->probe = true;
+    const void* key = d;
     {
-      N* d = new N(((int64_t)tid << 20) | S.next_id.fetch_add(1, std::memory_order_relaxed));
-      d->gone = gone;
       GPtr tmp{MPtr(d)};
       tmp.reclaim();
     }
-    for (iters = 0; iters < 2000 && !*gone; ++iters) {
+    auto gone = [key] {
+      xrt::Quiet q;
+      return reg().probes_gone.count(key) != 0;
+    };
+    for (iters = 0; iters < 2000 && !gone(); ++iters) {
       { typename R::region_guard rg{}; }
       N* x = new N(((int64_t)tid << 20) | S.next_id.fetch_add(1, std::memory_order_relaxed));
       GPtr tmp{MPtr(x)};
       tmp.reclaim();
     }
-    return *gone;
+    return gone();
   }
 
   static void retire_cell(Shared& S, int c, N* replacement, unsigned mark = 0) {
@@ -528,8 +535,11 @@ struct Env {
         h->step(in);
       h->deref_all();
       h->fini();
+#ifndef XV_NATIVE
+      // the probe is meaningful only when this thread is alone: every other thread of the generation must have exited completely
+      // (a thread that is still registered legitimately holds back the epoch based schemes and QSBR)
       if (w.release_probe >= 0 && !h->failed) {
-        while (S.retirers_done.load(std::memory_order_acquire) < w.release_probe)
+        while (w.release_probe > 0 && !xrt::thread_done(w.release_probe))
           sched_yield();
         w.probed = true;
         if (!release_probe(S, w.tid, w.probe_iters))
@@ -537,6 +547,7 @@ struct Env {
                   fmt("after thread %d destroyed all its guard_ptrs (and every other thread of the generation was done) a node it retired was "
                       "not reclaimed within %" PRIu64 " further retirements / region_guards: the thread still delays reclamation", w.tid, w.probe_iters));
       }
+#endif
       w.throws = h->throws;
       w.ops = h->ops;
       w.full_states = h->full_states;
@@ -624,9 +635,8 @@ struct Env {
           w.prog.push_back(random_instr(rng, true));
         ws.push_back(std::move(w));
       }
-      if (nholders == 1) {
-        ws[0].release_probe = S->retirers_done.load(std::memory_order_relaxed) + (with_retirer ? 1 : 0);
-      }
+      if (nholders == 1)
+        ws[0].release_probe = with_retirer ? 1 : 0; // spec index of the retirer the holder has to wait for (0: nobody)
       if (with_retirer) {
         Worker w{};
         w.sh = S;
@@ -654,8 +664,9 @@ struct Env {
           specs[t].start_delay = rng.below(100);
       }
       // the sweeper must start only when the others are done: chain it behind the last other thread
+      // (with a release probe the single holder outlives the retirer and must be alone during the probe: the sweeper waits for the holder)
       if (sweep && ws.size() > 1)
-        specs[ws.size() - 1].start_after = (int)ws.size() - 2;
+        specs[ws.size() - 1].start_after = nholders == 1 ? 0 : (int)ws.size() - 2;
       xrt::run(ctx.runcfg((uint64_t)gen), specs.data(), (int)specs.size());
       for (auto& w : ws) {
         throws += w.throws;
